@@ -6,8 +6,9 @@ obligations : theorems of lean/Pk/Props/C12.lean (state-file selection, crash pr
               stream ids and versions, which cuts are reachable, id stability over histories)
 tie         : `crashcheck` experiments of the scenario harness: a second REAL manager is started on a copy of
               the data directory taken while all jobs are parked (optionally with the index file under
-              construction cut, or — `crashcheck 100` — with the state file that the last save replaced put
-              back: a kill inside the state save); the files found there are described to the Lean recovery
+              construction cut, or — `crashcheck 100/101/102` — at a proper prefix of the file operations of the
+              state save just made, in the order harness/cmd/c12extract (go/ast) reads from the source of
+              saveState on every run; that order must equal the modelled `saveOps`); the files found there are described to the Lean recovery
               models (pkmodel c12: Pk.Model.Recover + RecoverIdx), whose prediction (index stack in name order,
               tags of the newest parsable state file, next stream id, the file serving each stream id) is
               compared with what the real restart loaded
@@ -44,7 +45,9 @@ def run(tier, seed, replay=None):
                        "construction (most recently modified, not yet in the served list) with its header still the zero "
                        "placeholder + any body prefix, since Finalize writes the header last (Pk/Props/C12Idx.lean "
                        "crash_cut_newest_only: these are exactly reachable disks); (b) directly after a call that saved state, "
-                       "old and new state file both on disk; every restart is followed by a clean shutdown and a second restart, in every second experiment "
+                       "every proper prefix of the file operations of that save in the order read from the source of saveState "
+                       "(new file absent / empty / half written / complete, old file still there or already removed); the restart "
+                       "may then show the settings as before or as after that call (it was not acknowledged yet), every tag as acknowledged; every restart is followed by a clean shutdown and a second restart, in every second experiment "
                        "with one more acknowledged call in between; answers that depend on converter output are not judged after a crash",
                        "captures handed to ImportPcaps but not yet imported are outside the statement (import queue is memory-only: finding F19)"]
     binpath, blog = pk.go_build("mgr")
@@ -52,6 +55,33 @@ def run(tier, seed, replay=None):
         rep.replay({"broken": "correspondence C12: scenario harness does not build", "log": blog[-3000:]}, no_input=True)
         rep.coverage.update({"evaluations": 0, "distinct_nontrivial": 0})
         return rep.finish()
+    # the order of the file operations of saveState, read from the source on every run: the crash states inside a
+    # state save that the harness emulates are the prefixes of THIS order (VERIF_SAVE_ORDER), and the modelled order
+    # (`saveOps` of Pk/Model/Recover.lean, theorem saveState_crash_safe) has to be the same
+    save_order, order_diff = None, None
+    xbin, xlog = pk.go_build("c12extract")
+    if xbin is None:
+        order_diff = "extractor does not build: " + xlog[-1000:]
+    else:
+        rc, o, e = pk.sh([xbin, "-src", os.path.join(pk.REPO, "internal", "index", "manager", "manager.go")], env=pk.goenv(), timeout=60)
+        try:
+            save_order = json.loads(o)["order"]
+        except Exception:
+            order_diff = "extractor failed: " + (o + e)[-500:]
+    model_order = None
+    rc, o, e = pk.sh([pk.PKMODEL, "c12"], stdin=b'{"saveorder":true}\n', timeout=60)
+    try:
+        model_order = json.loads(o.strip().split("\n")[0])["saveorder"].split(",")
+    except Exception:
+        order_diff = order_diff or "driver did not report the modelled order: " + (o + e)[-300:]
+    if save_order is not None and model_order is not None:
+        abstract = [{"create": "createPartial", "close": "complete", "remove": "remove"}[x] for x in save_order if x != "write"]
+        wr_ok = "write" in save_order and "create" in save_order and "close" in save_order and \
+            save_order.index("create") < save_order.index("write") < save_order.index("close")
+        if sorted(save_order) != ["close", "create", "remove", "write"] or not wr_ok or abstract != model_order:
+            order_diff = "saveState performs %s, the model (saveOps) %s" % (save_order, model_order)
+        if sorted(save_order) == ["close", "create", "remove", "write"]:
+            os.environ["VERIF_SAVE_ORDER"] = ",".join(save_order)
     if replay:
         data = json.load(open(replay))
         sc = mgrfam.run_impl(binpath, mgrfam.Scenario("replay", data.get("ops", [])))
@@ -86,6 +116,11 @@ def run(tier, seed, replay=None):
     if diffs and not rep.violations:
         rep.replay({"broken": "correspondence C12 (recovery model vs real manager.New on a crash copy) no longer checks",
                     "first": diffs[0]}, no_input=True)
+    if order_diff and not rep.violations:
+        rep.replay({"broken": "correspondence C12 (order of the file operations of saveState, read from the source, vs the modelled "
+                              "`saveOps` that theorem saveState_crash_safe is about) no longer checks",
+                    "difference": order_diff, "source_order": save_order, "model_order": model_order,
+                    "searched": "crash experiments at every prefix of the source order (stage crash)"}, no_input=True)
     if not ob.ok and not rep.violations:
         rep.replay({"broken": "proof obligations of Pk.Props.C12", "failed": ob.failed[:20], "log": ob.log[-2000:]}, no_input=True)
     rep.coverage.update({
@@ -95,5 +130,6 @@ def run(tier, seed, replay=None):
                 "non-trivial = distinct crash disks with >= 2 index files or an unreadable file",
         "samples": [diffs[0]] if diffs else [{"note": "see crash_stage.event_mix for the number of restarts"}],
         "recovery_model_disks_compared": disks, "recovery_model_differences": len(diffs),
+        "save_order_from_source": save_order, "save_order_of_model": model_order, "save_order_difference": order_diff,
     })
     return rep.finish()
